@@ -573,6 +573,9 @@ func init() {
 				{"html", tmpFile(r, ".html", []byte(hb.String()))},
 			}
 			for _, doc := range docs {
+				if di%4 == 0 {
+					c03OneReaderOf(r, doc.format, doc.path)
+				}
 				md, _, err := tabula.Open(doc.path).ToMarkdown()
 				if err != nil {
 					r.Check(false, "document-markdown:"+doc.format, "ToMarkdown fails: "+err.Error(), Bs(doc.path))
@@ -723,6 +726,7 @@ func init() {
 				}
 			}
 			path := tmpFile(r, ".pptx", writeZip(members))
+			c03OneReaderOf(r, "pptx", path)
 			md, _, err := tabula.Open(path).ToMarkdown()
 			var wantTables [][][]string
 			for _, tbs := range slideTables {
